@@ -29,7 +29,8 @@ class _Proxy:
     def reduce(self, fn, seq, *init):
         seq = list(seq)
         out = _functools.reduce(fn, seq, *init)
-        if len(init) == 1 and len(seq) == 2:
+        # only the fold of gen_conditional (generator.py has a second reduce, over type-parameter bounds)
+        if len(init) == 1 and len(seq) == 2 and "gen_conditional" in getattr(fn, "__qualname__", ""):
             rec = [init[0], seq[0], seq[1], out, None, None]
             self._state["raw"].append(rec)
             if self._state["cstack"]:
